@@ -198,7 +198,7 @@ def run(ctx):
                 if not np.allclose(exi, np.pi * rad, rtol=1e-12, atol=0):
                     ctx.violation({'kind': 'exitance-is-pi-radiance', 'waveunit': u, 'valueunit': vu}, {'T': T}, case=None)
         # wavelengths given as integer arrays (an arange grid) are the same wavelengths (lists are refused outright: TypeError)
-        for u, wi in (('angstrom', [4000, 5000, 7000, 12000, 50000]), ('nm', [400, 700, 9000, 20000])):
+        for u, wi in (('angstrom', [4000, 5000, 7000, 12000, 50000]), ('nm', [400, 700, 9000, 20000]), ('m', [1, 100, 7000])):
             for vu in FU:
                 ref_f = r.planck_radiance(np.array(wi, dtype=float), T, waveunit=u, valueunit=vu)
                 for form, wv in (('int64', np.array(wi, dtype=np.int64)), ('int32', np.array(wi, dtype=np.int32))):
@@ -238,6 +238,29 @@ def run(ctx):
                 e = f0 * (H * C / w0) ** p * 10.0 ** q * 10.0 ** sp.EXP[uu]
                 if abs(wv - w0 * 10.0 ** (-sp.EXP[uu])) > 1e-12 * wv or abs(fl - e) > 1e-11 * e:
                     ctx.violation({'kind': 'vegaflux-units', 'waveunit': u, 'valueunit': vu}, {'band': band, 'expected': [e, w0 * 10.0 ** (-sp.EXP[uu])], 'observed': [fl, wv]}, case=None)
+    # ---- a star of given Vega magnitude (Planck law scaled to the tabulated Vega flux): the same source whichever units are requested ---------
+    wv_nm = np.linspace(400.0, 900.0, 11)
+    for band in ('V', 'J'):
+        for u in WU:
+            w_u = wv_nm * 10.0 ** (-9 - sp.EXP[u])
+            ref = r.Blackbody.vegamag(w_u, 5000.0, 2.0, band, waveunit=u, valueunit='photlam')
+            for vu in FU:
+                ctx.case(('vegamag', band, u, vu))
+                p, q = tab['flux']['photlam'][vu]
+                e = np.asarray(ref.value) * (H * C / (wv_nm * 1e-9)) ** p * 10.0 ** q
+                try:
+                    src = r.Blackbody.vegamag(w_u, 5000.0, 2.0, band, waveunit=u, valueunit=vu)
+                    ok_value = src.valueunit == vu and np.allclose(src.value, e, rtol=1e-10, atol=0)
+                    ok_sample = np.allclose(src.sample(w_u, waveunit=u), e, rtol=1e-10, atol=0)
+                    conv = r.Blackbody.vegamag(w_u, 5000.0, 2.0, band, waveunit=u, valueunit='photlam')
+                    conv.to(vu)
+                    ok_conv = np.allclose(conv.value, e, rtol=1e-10, atol=0) and np.allclose(conv.sample(w_u, waveunit=u), e, rtol=1e-10, atol=0)
+                except Exception as ex:
+                    ctx.violation({'kind': 'vegamag-' + type(ex).__name__, 'waveunit': u, 'valueunit': vu}, {'band': band, 'error': repr(ex)[:200]}, case=None)
+                    continue
+                if not (ok_value and ok_sample and ok_conv):
+                    ctx.violation({'kind': 'vegamag-units', 'valueunit': vu, 'constructed_in_unit': bool(ok_value), 'sample_agrees': bool(ok_sample),
+                                   'converted_agrees': bool(ok_conv)}, {'band': band, 'waveunit': u}, case=None)
     ctx.traces += len(cases) + npaths
     ctx.exhaustive = ctx.tier != 'quick'
     ctx.extra.update({'to_paths_replayed': npaths, 'rational_to_cases': len(cases) - 1,
